@@ -1,7 +1,7 @@
 """C13 HTM ids are hierarchical and cover circles; pair counts equal brute force."""
 import numpy as np
 
-from vlib import probe
+from vlib import gen, probe
 from vlib.probe import COL
 from vlib.props import htmshared as H
 from vlib.refs import sphere as S
@@ -317,9 +317,15 @@ def run_bincount(case, rng, edges=False):
                 ("rev+minmax", dict(htmrev2=rev, minid=int(ids.min()), maxid=int(ids.max()))),
                 ("ids-i4+rev-swapped", dict(htmid2=ids.astype("i8")[::1].astype(">i8"), htmrev2=rev.astype(">i8"), minid=int(ids.min()), maxid=int(ids.max()))),
                 ("ids-list+rev-strided", dict(htmid2=ids.tolist(), htmrev2=np.repeat(rev, 2)[::2], minid=int(ids.min()), maxid=int(ids.max()))),
-                ("getbins=False", dict(getbins=False))]
+                ("getbins=False", dict(getbins=False)), ("views", {})]
     for nm, kv in variants:
-        res, e = probe.attempt(h.bincount, rmin, rmax, nbin, ra1, dec1, ra2, dec2, **dict(kw, **kv))
+        pos = (ra1, dec1, ra2, dec2)
+        if nm == "views":
+            # the same coordinates (and per-point scale) handed over as non-contiguous views
+            pos = tuple(gen.as_view(rng, a)[0] for a in pos)
+            if isinstance(scale, np.ndarray):
+                kv = dict(scale=gen.as_view(rng, scale)[0])
+        res, e = probe.attempt(h.bincount, rmin, rmax, nbin, *pos, **dict(kw, **kv))
         if e is not None:
             COL.violation("C13.bincount", "bincount(%s) raised %s: %s" % (nm, type(e).__name__, str(e)[:140]), wit)
             continue
